@@ -116,8 +116,11 @@ PROPS = {
                 "harness (clone profile): after a generated history on the source replica a replica of a NEW volume is started as a clone of one of its snapshots with the real code end to end: real clone replica behind REST/RPC/sync-agent endpoints, real controller of the new volume (real remote backend) whose Start opens the replica and polls the clone status, app.CloneReplica -> sync.Task.CloneReplica with the real sync agents and ssync as child processes (re-exec of the harness binary, as main.go does); the source volume's controller is a stub answering GET /v1/replicas; the lines of app.startReplica around the call (status inProgress before, error on failure) are repeated by the harness and pinned by the T1 fact cloneStatusOrder",
                 "observed: final clone status, how the new controller lists the replica, that it never lists it RW before the status says completed (sampled every 2 ms), chain, revision counter, and the image read through the new controller; compared with the model (image = view of the snapshot, counter = the one recorded in the snapshot's metadata, which the model now tracks through snapshot / delete / revert / reopen)",
                 "modelled: the polling loop of addReplicaDuringStartNoLock by the status it ends on (T1 fact cloneStatusLoop pins the loop conditions); two failures are exercised: 'snapshot not found', and a transfer cut in the middle (request 'clone <snap> fault': the sender of the first snapshot data file, the real ssync run as a child, delivers only the first half and exits with an error; the model answers that such a clone fails: status error, never listed RW); a crash of the source or clone process during the copy is not injected"]},
-    "C10": {"lean": ["JivaVerif.Properties.C10"],
-            "runs": [rep("counter", 320, 30, 5000, 45, 3)], "modelled": FS + [
+    "C10": {"lean": ["JivaVerif.Properties.C10", "JivaVerif.Properties.C10Cluster"],
+            "runs": [rep("counter", 320, 30, 5000, 45, 3),
+                     {"engine": "clusterdiff", "profile": "healthy", "salt": 73, "quick": {"n": 160, "len": 40, "timeout": 900}, "thorough": {"n": 3000, "len": 50, "timeout": 3000}}],
+            "modelled": FS + [
+                "volume level ('all RW replicas of a volume report the same count'): c10_rw_replicas_agree over the whole-volume model Model/Cluster.lean, for ANY history incl. stops in any state; tie: clusterdiff (the real controller over replica stand-ins that count like the replica model: +1 per write applied while RW, SetRevisionCounter at promotion) compares every directory's counter after every step",
                 "modelled: the counter file is one 4 KiB O_DIRECT block rewritten by a single pwrite under revisionLock; concurrent writers are one atomic step each"]},
     "C11": {"lean": ["JivaVerif.Properties.C11"],
             "runs": [rep("delete", 640, 36, 10000, 50, 4),
